@@ -12,6 +12,8 @@ var (
 	int64Handler  atomic.Pointer[func(string) int64]
 )
 
+var pointIDHandler atomic.Pointer[func(string, uint64)]
+
 // SetPointHandler installs (or, with nil, removes) the handler invoked by Point.
 func SetPointHandler(f func(name string)) {
 	if f == nil {
@@ -34,6 +36,23 @@ func SetPausedHandler(f func(name string) bool) {
 func Point(name string) {
 	if h := pointHandler.Load(); h != nil {
 		(*h)(name)
+	}
+}
+
+// SetPointIDHandler installs (or, with nil, removes) the handler invoked by PointID.
+func SetPointIDHandler(f func(name string, id uint64)) {
+	if f == nil {
+		pointIDHandler.Store(nil)
+		return
+	}
+	pointIDHandler.Store(&f)
+}
+
+// PointID is Point for steps that concern one numbered object (e.g. the WAL segment of the
+// memtable a flush worker is about to flush).
+func PointID(name string, id uint64) {
+	if h := pointIDHandler.Load(); h != nil {
+		(*h)(name, id)
 	}
 }
 
